@@ -29,14 +29,35 @@ def _freeze_value(x):
         return x
 
 
+def _value_types(x):
+    # Nested types of a frozen value: 2, 2.0 and True compare (and hash) equal, but are different arguments
+    if isinstance(x, tuple):
+        return tuple(_value_types(v) for v in x)
+    elif isinstance(x, frozendict.frozendict):
+        return tuple((k, _value_types(v)) for k, v in x.items())
+    elif isinstance(x, bool | int | float | complex | np.number | np.bool_):
+        return type(x)
+    else:
+        return None
+
+
 def _freeze_args(func):
     @functools.wraps(func)
     def func_frozen(*args, **kwargs):
         args = [_freeze_value(a) for a in args]
         kwargs = {k: _freeze_value(v) for k, v in kwargs.items()}
-        return func(*args, **kwargs)
+        return func(*args, _einx_argument_types=_value_types((tuple(args), frozendict.frozendict(kwargs))), **kwargs)
 
     return func_frozen
+
+
+def _ignore_argument_types(func):
+    # The types of scalar arguments are only part of the cache key
+    @functools.wraps(func)
+    def func_without_types(*args, _einx_argument_types=None, **kwargs):
+        return func(*args, **kwargs)
+
+    return func_without_types
 
 
 def _with_retrace_warning(func):
@@ -97,6 +118,7 @@ def _with_retrace_warning(func):
 # 2. warns if there are more than EINX_WARN_ON_RETRACE cache failures from the same call site
 def lru_cache(func):
     func = _with_retrace_warning(func)
+    func = _ignore_argument_types(func)
 
     if max_cache_size > 0:
         func = functools.lru_cache(maxsize=max_cache_size if max_cache_size > 0 else None)(func)
